@@ -10,6 +10,7 @@ import (
 	"encoding/json"
 	"fmt"
 	"math/rand"
+	"sync"
 
 	gojose "github.com/go-jose/go-jose/v3"
 	docdid "github.com/trustbloc/did-go/doc/did"
@@ -204,7 +205,98 @@ func genC08(seed int64, tier string) []caseOut {
 		out = append(out, lifecycleCase(r, i))
 	}
 	out = append(out, builderRefusals(r)...)
+	out = append(out, concurrentBuilds(r)...)
 	return out
+}
+
+// concurrentBuilds: independent DIDs created, updated and parsed by several goroutines at once;
+// every request must equal the one built for the same inputs sequentially (create and update
+// requests of Ed25519 keys are deterministic) and must be accepted by the parser.
+func concurrentBuilds(r *rand.Rand) []caseOut {
+	cfg := baseProtocol(r)
+	cfg.MultihashAlgorithms = []uint{18, 19}
+	cfg.MaxOperationHashLength = 200
+	const dids = 12
+	type job struct {
+		code           uint
+		rec, upd, next *keyPair
+		doc            string
+	}
+	jobs := make([]job, dids)
+	for i := range jobs {
+		jobs[i] = job{[]uint{18, 19}[i%2], genKey(r, "Ed25519"), genKey(r, "Ed25519"), genKey(r, "Ed25519"),
+			fmt.Sprintf(`{"service":[{"id":"s%d","type":"T","serviceEndpoint":"https://example.com/%d"}]}`, i, i)}
+	}
+	build := func(j job) (out [2][]byte, problem string) {
+		defer func() {
+			if e := recover(); e != nil {
+				problem = fmt.Sprint("panic: ", e)
+			}
+		}()
+		p := operationparser.New(cfg)
+		code := uint64(j.code)
+		cr, err := client.NewCreateRequest(&client.CreateRequestInfo{OpaqueDocument: j.doc, RecoveryCommitment: commitmentOf(j.rec.jwk(), code),
+			UpdateCommitment: commitmentOf(j.upd.jwk(), code), MultihashCode: j.code})
+		if err != nil {
+			return out, "create builder: " + err.Error()
+		}
+		op, err := p.Parse("did:ns", cr)
+		if err != nil {
+			return out, "create refused: " + err.Error()
+		}
+		pt, _ := patch.NewAddAlsoKnownAs(`["https://aka.example/1"]`)
+		sg := j.upd.signer()
+		up, err := client.NewUpdateRequest(&client.UpdateRequestInfo{DidSuffix: op.UniqueSuffix, Patches: []patch.Patch{pt},
+			UpdateCommitment: commitmentOf(j.next.jwk(), code), UpdateKey: sg.jwk, MultihashCode: j.code, Signer: sg,
+			RevealValue: revealOf(j.upd.jwk(), code)})
+		if err != nil {
+			return out, "update builder: " + err.Error()
+		}
+		if _, err := p.Parse("did:ns", up); err != nil {
+			return out, "update refused: " + err.Error()
+		}
+		return [2][]byte{cr, up}, ""
+	}
+	seq := make([][2][]byte, dids)
+	for i, j := range jobs {
+		var prob string
+		if seq[i], prob = build(j); prob != "" {
+			seq[i] = [2][]byte{}
+		}
+	}
+	problems := make([]string, dids)
+	var wg sync.WaitGroup
+	for i := range jobs {
+		wg.Add(1)
+		go func(i int) {
+			defer wg.Done()
+			for round := 0; round < 40 && problems[i] == ""; round++ {
+				got, prob := build(jobs[i])
+				if prob == "" && (string(got[0]) != string(seq[i][0]) || string(got[1]) != string(seq[i][1])) {
+					prob = "request differs from the one built sequentially from the same input"
+				}
+				if prob != "" && len(seq[i][0]) > 0 {
+					problems[i] = prob
+				}
+			}
+		}(i)
+	}
+	wg.Wait()
+	same := true
+	var why []string
+	for i, p := range problems {
+		if p != "" {
+			same = false
+			why = append(why, fmt.Sprintf("did %d: %s", i, p))
+		}
+	}
+	h := sha256.Sum256([]byte("concurrent-builds"))
+	return []caseOut{{
+		Coq:    fmt.Sprintf("(mk_c08conc %s)", cBool(same)),
+		Rec:    map[string]interface{}{"independent_dids": dids, "rounds": 40, "all_as_sequential": same, "problems": why},
+		Label:  "concurrent-builds",
+		NonTri: fmt.Sprintf("%x", h[:8]),
+	}}
 }
 
 // the requests of the most recent lifecycle (C04 links them with the parser's accessors)
@@ -251,7 +343,31 @@ func lifecycleCase(r *rand.Rand, idx int) caseOut {
 	} else {
 		label += ",builders"
 	}
-	t := uint64(1000 + r.Intn(1000))
+	t := uint64(6000 + r.Intn(1000))
+	// anchoring windows of the builder requests: the edges, systematically (first and last
+	// second, explicit and defaulted expiry), then somewhere inside
+	winSeq := idx / 2
+	edgeWindow := func() (int64, int64) {
+		winSeq++
+		ti, delta := int64(t), int64(cfg.MaxOperationTimeDelta)
+		switch winSeq % 8 {
+		case 0:
+			return 0, 0
+		case 1:
+			return ti, ti
+		case 2:
+			return ti - 7, ti
+		case 3:
+			return ti, 0
+		case 4:
+			return ti - delta, 0
+		case 5:
+			return 0, ti
+		case 6:
+			return ti - int64(r.Intn(100)), ti + int64(r.Intn(100))
+		}
+		return ti - int64(r.Intn(100)), 0
+	}
 	type stepMeta struct {
 		from, until int64
 		t           uint64
@@ -462,9 +578,7 @@ func lifecycleCase(r *rand.Rand, idx int) caseOut {
 					}
 					mk(patch.NewAddPublicKeysPatch(js(l)))
 				}
-				if r.Intn(2) == 0 {
-					from, until = int64(t)-int64(r.Intn(100)), []int64{0, int64(t) + int64(r.Intn(100))}[r.Intn(2)]
-				}
+				from, until = edgeWindow()
 				sg := updKey.signer()
 				b, err := client.NewUpdateRequest(&client.UpdateRequestInfo{DidSuffix: suffix, Patches: ps,
 					UpdateCommitment: commitmentOf(next.jwk(), uint64(code)), UpdateKey: sg.jwk, MultihashCode: code, Signer: sg,
@@ -484,6 +598,7 @@ func lifecycleCase(r *rand.Rand, idx int) caseOut {
 			nextRec, nextUpd = zeroLeadKey(opKind, "y", 20), zeroLeadKey(opKind, "x", 20)
 		}
 		t += uint64(1 + r.Intn(100))
+		var rFrom, rUntil int64
 		exp = &expDoc{}
 		keys := randDocKeys(r, "rkey", 1+r.Intn(2))
 		for _, k := range keys {
@@ -516,12 +631,14 @@ func lifecycleCase(r *rand.Rand, idx int) caseOut {
 				origin = "origin3.example"
 			}
 			sg := recKey.signer()
+			rFrom, rUntil = edgeWindow()
 			b, err := client.NewRecoverRequest(&client.RecoverRequestInfo{DidSuffix: suffix, RecoveryKey: sg.jwk, OpaqueDocument: buildDocJSON(),
 				RecoveryCommitment: commitmentOf(nextRec.jwk(), uint64(code)), UpdateCommitment: commitmentOf(nextUpd.jwk(), uint64(code)),
-				AnchorOrigin: origin, MultihashCode: code, Signer: sg, RevealValue: revealOf(recKey.jwk(), uint64(code))})
+				AnchorOrigin: origin, MultihashCode: code, Signer: sg, RevealValue: revealOf(recKey.jwk(), uint64(code)),
+				AnchorFrom: rFrom, AnchorUntil: rUntil})
 			steps = append(steps, lifeStep{"recover", b, err})
 		}
-		metas = append(metas, stepMeta{0, 0, t})
+		metas = append(metas, stepMeta{rFrom, rUntil, t})
 		snap()
 		recKey, updKey = nextRec, nextUpd
 	}
@@ -529,6 +646,7 @@ func lifecycleCase(r *rand.Rand, idx int) caseOut {
 	deactivate_ := r.Intn(3) != 0
 	if deactivate_ {
 		t += uint64(1 + r.Intn(100))
+		var dFrom, dUntil int64
 		if useClient {
 			before := len(captured)
 			err := cl.DeactivateDID(did, deactivate.WithSigner(recKey.signer()), deactivate.WithOperationCommitment(commitmentOf(recKey.jwk(), uint64(recCode))))
@@ -539,11 +657,12 @@ func lifecycleCase(r *rand.Rand, idx int) caseOut {
 			}
 		} else {
 			sg := recKey.signer()
+			dFrom, dUntil = edgeWindow()
 			b, err := client.NewDeactivateRequest(&client.DeactivateRequestInfo{DidSuffix: suffix, RecoveryKey: sg.jwk, Signer: sg,
-				RevealValue: revealOf(recKey.jwk(), uint64(code))})
+				RevealValue: revealOf(recKey.jwk(), uint64(code)), AnchorFrom: dFrom, AnchorUntil: dUntil})
 			steps = append(steps, lifeStep{"deactivate", b, err})
 		}
-		metas = append(metas, stepMeta{0, 0, t})
+		metas = append(metas, stepMeta{dFrom, dUntil, t})
 		expAfter = append(expAfter, M{})
 	}
 	// ---- run through the real parser and applier; anchored form
